@@ -12,9 +12,33 @@ use crate::{
     util::{dump_model, import_write, new_store, offer_remote, Backend, Scratch},
 };
 
+thread_local! {
+    /// One case in four gives the replicas a previous life (see `build`).
+    static PREVIOUS_LIFE: std::cell::Cell<Option<Vec<SignedEntry>>> = const { std::cell::Cell::new(None) };
+}
+
 fn build(uni: &Universe, offers: &[SignedEntry], backend: Backend, scratch: &Scratch) -> Store {
     let (mut s, _) = new_store(backend, scratch);
     import_write(&mut s, &uni.ns);
+    // A previous life of the document on this store instance (added after seeded change agent-C01-8):
+    // it held other entries, opened a session, was removed and imported again. "Whatever entries
+    // each holds" is about what the replica holds now; nothing of the past may show in a session.
+    let past = PREVIOUS_LIFE.with(|p| {
+        let v = p.take();
+        p.set(v.clone());
+        v
+    });
+    if let Some(past) = past {
+        for e in &past {
+            offer_remote(&mut s, uni.ns.id(), e);
+        }
+        if let Ok(mut r) = s.open_replica(&uni.ns.id()) {
+            let _ = r.sync_initial_message();
+        }
+        s.close_replica(uni.ns.id());
+        let _ = s.remove_replica(&uni.ns.id());
+        import_write(&mut s, &uni.ns);
+    }
     for e in offers {
         offer_remote(&mut s, uni.ns.id(), e);
     }
@@ -39,7 +63,7 @@ pub fn run(ctx: &mut Ctx) {
         let nb = rng.range(0, max_n);
         let mut pool = uni.entries(&mut rng, na + nb, 4);
         // shared part: some of B's offers are copies of A's
-        let offers_a: Vec<SignedEntry> = pool.drain(..na).collect();
+        let mut offers_a: Vec<SignedEntry> = pool.drain(..na).collect();
         let mut offers_b: Vec<SignedEntry> = pool;
         for e in offers_a.iter() {
             if rng.chance(1, 3) {
@@ -47,6 +71,20 @@ pub fn run(ctx: &mut Ctx) {
             }
         }
         rng.shuffle(&mut offers_b);
+        if rng.chance(1, 4) {
+            let n = rng.range(1, 8);
+            let past = uni.entries(&mut rng, n, 4);
+            // half of these are the document that was dropped and joined again: one side is empty
+            // now, the other still holds what both held before
+            if rng.chance(1, 2) {
+                offers_a.clear();
+                offers_b = past.clone();
+            }
+            PREVIOUS_LIFE.with(|p| p.set(Some(past)));
+            ctx.count("cases_with_a_previous_life_of_the_document", 1);
+        } else {
+            PREVIOUS_LIFE.with(|p| p.set(None));
+        }
         let (ca, cb) = (cfg(&mut rng), cfg(&mut rng));
         let backends = match rng.below(10) {
             0 => (Backend::File, Backend::File),
